@@ -276,6 +276,57 @@ def run_sync_case(rng, res, idx):
 _MAXLEN = [40]
 
 
+def run_long_case(rng, res, idx):
+    """Thousands of completed calls under one name (a long training run): every sample since the last clear counts, whatever
+    the history length. A scripted clock gives call i the integer duration d_i (two reads per call: start, end)."""
+    import kfac.tracing as tracing
+
+    N = rng.choice([rng.randint(4097, 9000), rng.randint(4097, 9000), rng.randint(1000, 4096), 4096, 4097, 8193])
+    durs = [rng.randint(1, 9) for _ in range(N)]
+    state = dict(t=0, i=0, phase=0)
+
+    def now():
+        if state['phase'] == 0:
+            state['phase'] = 1
+            return float(state['t'])
+        state['phase'] = 0
+        state['t'] += durs[state['i']]
+        state['i'] += 1
+        return float(state['t'])
+
+    real_time = tracing.time
+    tracing.time = types.SimpleNamespace(time=now)
+    tracing.clear_trace()
+    case = dict(long_idx=idx, calls=N)
+    try:
+        def body():
+            return None
+        body.__name__ = 'long_step'
+        f = tracing.trace()(body)
+        checkpoints = sorted({N, rng.randint(1, N), min(N, 4096), min(N, 4097)})
+        done = 0
+        for cp in checkpoints:
+            for _ in range(cp - done):
+                f()
+            done = cp
+            for mh in (None, done + 5, done, max(1, done - 1), 4096, 4097, 5000, 1, rng.randint(1, done)):
+                for average in (False, True):
+                    res.count('long_history_queries')
+                    got = tracing.get_trace(average=average, max_history=mh).get('long_step')
+                    w = durs[:done] if mh is None else durs[:done][-mh:]
+                    exp = (sum(w) / len(w)) if average else float(sum(w))
+                    if got != exp:
+                        return res.violation(f'after {done} completed calls of one traced function get_trace(average={average}, max_history={mh}) = {got}, the scripted clock implies {exp}', case)
+        tracing.clear_trace()
+        if tracing.get_trace():
+            return res.violation('clear_trace() left samples behind after a long history', case)
+        if N > 4096:
+            res.nontrivial.add(stable_hash('long', N))
+    finally:
+        tracing.time = real_time
+        tracing.clear_trace()
+
+
 def tier_len(rng):
     return _MAXLEN[0]
 
@@ -297,6 +348,8 @@ def run_shard(spec, res):
         run_case(rng, res, i)
         if i % 10 == 0:
             run_sync_case(case_rng(spec['seed'], ID, i, 'sync'), res, i)
+        if i % 75 == 5:
+            run_long_case(case_rng(spec['seed'], ID, i, 'long'), res, i)
 
 
 def replay(case, res):
@@ -304,6 +357,8 @@ def replay(case, res):
     # cases are regenerated from (seed, index); both tiers' lengths are tried
     import os
     seed = int(os.environ.get('VERIF_SEED', '0'))
+    if 'long_idx' in case:
+        return run_long_case(case_rng(seed, ID, case['long_idx'], 'long'), res, case['long_idx'])
     if case.get('kind') == 'sync':
         return run_sync_case(case_rng(seed, ID, case['idx'], 'sync'), res, case['idx'])
     for ml in (40, 200):
